@@ -55,6 +55,92 @@ def _shift(src_text):
 NEUTRAL = [("reformat", _reformat), ("noop-statements", _noise), ("line-shift", _shift)]
 
 
+# --- stronger behaviour-preserving variants (each was validated once against the pinned 123-test suite) ---------------
+class _AlphaRenamer(ast.NodeTransformer):
+    def __init__(self, names):
+        self.names = names
+
+    def visit_Name(self, n):
+        if n.id in self.names:
+            n.id = self.names[n.id]
+        return n
+
+    def visit_ExceptHandler(self, n):
+        if n.name in self.names:
+            n.name = self.names[n.name]
+        self.generic_visit(n)
+        return n
+
+
+def _alpha(src_text):
+    """rename every local variable of every function (parameters, globals and imports untouched)"""
+    from .normalize import scope_info
+    tree = ast.parse(src_text)
+    for fn in ast.walk(tree):
+        if isinstance(fn, (ast.FunctionDef, ast.AsyncFunctionDef)):
+            info = scope_info(fn)
+            if not info or not info[1]:
+                continue
+            _, locs, used = info
+            m = {}
+            for name in locs:
+                new = name + "_q"
+                while new in used:
+                    new += "q"
+                m[name] = new
+            r = _AlphaRenamer(m)
+            fn.body = [r.visit(st) for st in fn.body]
+    return ast.unparse(tree) + "\n"
+
+
+class _IfFlip(ast.NodeTransformer):
+    def visit_If(self, n):
+        self.generic_visit(n)
+        if n.orelse and not (len(n.orelse) == 1 and isinstance(n.orelse[0], ast.If)):
+            t = n.test
+            nt = t.operand if isinstance(t, ast.UnaryOp) and isinstance(t.op, ast.Not) else ast.UnaryOp(op=ast.Not(), operand=t)
+            return ast.If(test=nt, body=n.orelse, orelse=n.body)
+        return n
+
+
+def _flip(src_text):
+    """swap the arms of every if/else (negating the test)"""
+    t = _IfFlip().visit(ast.parse(src_text))
+    ast.fix_missing_locations(t)
+    return ast.unparse(t) + "\n"
+
+
+class _Membership(ast.NodeTransformer):
+    """x == A or x == B  <->  x in (A, B): rewrite each spelling into the other"""
+
+    def visit_BoolOp(self, n):
+        self.generic_visit(n)
+        if isinstance(n.op, ast.Or) and all(isinstance(v, ast.Compare) and len(v.ops) == 1 and isinstance(v.ops[0], ast.Eq)
+                                            and isinstance(v.left, (ast.Name, ast.Attribute)) for v in n.values) \
+                and len({ast.dump(v.left) for v in n.values}) == 1:
+            return ast.Compare(left=n.values[0].left, ops=[ast.In()],
+                               comparators=[ast.Tuple(elts=[v.comparators[0] for v in n.values], ctx=ast.Load())])
+        return n
+
+    def visit_Compare(self, n):
+        self.generic_visit(n)
+        if len(n.ops) == 1 and isinstance(n.ops[0], ast.In) and isinstance(n.comparators[0], ast.Tuple) \
+                and 2 <= len(n.comparators[0].elts) <= 3 and isinstance(n.left, (ast.Name, ast.Attribute)) \
+                and all(isinstance(e, (ast.Name, ast.Attribute)) and ast.unparse(e).split(".")[-1].isupper() for e in n.comparators[0].elts):
+            return ast.BoolOp(op=ast.Or(), values=[ast.Compare(left=n.left, ops=[ast.Eq()], comparators=[e])
+                                                   for e in n.comparators[0].elts])
+        return n
+
+
+def _member(src_text):
+    t = _Membership().visit(ast.parse(src_text))
+    ast.fix_missing_locations(t)
+    return ast.unparse(t) + "\n"
+
+
+NEUTRAL += [("alpha-rename-locals", _alpha), ("flip-if-else", _flip), ("membership-spelling", _member)]
+
+
 def _job(args):
     prop, seed, overlay = args
     from .check import run_property
